@@ -11,6 +11,7 @@ import (
 
 	"verif/mc/bind"
 	"verif/mc/core"
+	"verif/mc/env"
 	"verif/mc/gen"
 	"verif/mc/spec"
 )
@@ -190,6 +191,17 @@ func c01ExecMode(c *pcase, interleaved bool) (*core.Finding, bool) {
 	diff = append(diff, notes...)
 	if len(diff) > 0 {
 		return mk("field:"+diffClass(diff), fmt.Sprintf("after write+read: %s (frame %s)", strings.Join(clipList(diff, 4), "; "), abbrevHex(f1))), true
+	}
+	if len(f1) <= 8 {
+		// the shortest frames once more from a reader that hands over the
+		// last byte together with io.EOF (as the io.Reader contract allows),
+		// whole and byte by byte: the header path is all there is to them
+		for _, pat := range []*env.Pattern{nil, {Chunk: 1}} {
+			r2, rerr2, res2 := readPacket(&env.Reader{Data: f1, MixEnd: true, Pat: pat}, stepBudget(len(f1)))
+			if res2.Panic != "" || res2.Budget || rerr2 != nil || r2 == nil || obsKey(r2) != obsKey(r) {
+				return mk("read-differs-when-eof-comes-with-the-last-byte", fmt.Sprintf("the written frame %s read from a reader that returns the last byte together with io.EOF: packet %v, err %v %s; from a bytes.Reader it decodes fine", abbrevHex(f1), r2 != nil, rerr2, res2.Panic)), true
+			}
+		}
 	}
 	advanceClock(time.Hour + 7*time.Second) // the decoded packet is written again an hour later
 	f2, _, werr, res := writePacket(r, 0)
